@@ -1274,7 +1274,8 @@ func splitIntoSentences(text string) []string {
 				str := current.String()
 				if len(str) >= 2 {
 					prevChar := rune(str[len(str)-2])
-					if unicode.IsUpper(prevChar) && (i < 2 || unicode.IsSpace(rune(str[len(str)-3]))) {
+					// (a capital that opens the sentence buffer counts like one after a space)
+					if unicode.IsUpper(prevChar) && (i < 2 || len(str) < 3 || unicode.IsSpace(rune(str[len(str)-3]))) {
 						continue
 					}
 				}
